@@ -159,6 +159,57 @@ def gen(rng, tier):
             c["provs"] = {"ps": {"in": "always", "out": o, "beh": beh, "const": G.xspec({"val": "s"})}}
             c["sites"] = []
             cases.append(dict(c, kind="ev", check=chk, show=True))
+    # ... and the same members fed into the typed built-ins and into provider inputs with a record schema, ONE consumer per
+    # environment (the comparison sees "has error diagnostics" of the whole run, so nothing else may report).  Where the output
+    # schema neither declares nor forbids the member, the member is an unknown whose schema is `false`: the implementation
+    # rejects it WITHOUT a diagnostic (eval_validate.go:191-193 `if x.Never { return false }`; evaluateTypedExpr's fallback,
+    # eval.go:565, is skipped for values containing unknowns) and the built-in yields an unknown: Model/Eval.v silent_never.
+    # Positions: the argument itself (join delimiter / values, toBase64, fromBase64, fromJSON, provider inputs), an element
+    # of a literal array (validateArray, eval_validate.go:622-631), a declared property of literal inputs (validateObject,
+    # :650-663), a prefix item of an unknown array (validateSchemaArray, :329-337: the last schema of `outs2`).
+    outs2 = outs + [{"t": "array", "prefix": ["never", "string"], "items": "never"}, {"t": "object", "props": {"val": "never"}}]
+    feeds = [[steps[0]], [steps[1]], [steps[2]], [steps[3]], [steps[4]], [steps[5], steps[3]], [steps[0], steps[1]], []]
+    recs = {"rec": {"in": {"props": {"region": "string"}, "required": [], "closed": False}, "out": "always", "beh": "echo"},
+            "recc": {"in": {"props": {"region": "string"}, "required": [], "closed": True}, "out": "always", "beh": "echo"},
+            "recr": {"in": {"props": {"region": "string", "other": "number"}, "required": ["region"], "closed": False},
+                     "out": "always", "beh": "echo"},
+            "any": {"in": "always", "out": "always", "beh": "echo"}}
+    nth = 0
+    for oi, o in enumerate(outs2):
+        for pth in feeds:
+            mp = [("name", "o")] + pth
+            m = ("sym", mp)
+            consumers = [
+                ("join", ("str", "-"), ("arr", [m, ("str", "hello")])),               # element of a literal array
+                ("join", ("str", "-"), ("arr", [m, m])),                              # only silent elements
+                ("join", ("str", "-"), ("arr", [("str", "a"), m, ("num", "1"), m])),  # silent and reported elements mixed
+                ("join", m, ("arr", [("str", "a"), ("str", "b")])),                   # delimiter
+                ("join", m, ("arr", [m])),                                            # delimiter and element
+                ("join", ("str", ","), m),                                            # the values argument itself
+                ("join", ("str", ","), ("arr", [("arr", [m])])),                      # one level deeper: a known array element
+                ("tob64", m), ("fromb64", m), ("fromjson", m), ("tostring", m), ("tojson", m),
+                ("tob64", ("tostring", m)),
+                G.norm_interp([("pre-", mp), ("-post", None)]),
+                ("join", ("str", "/"), ("arr", [G.norm_interp([("x", mp), ("", None)])])),
+                ("open", "rec", ("obj", [("region", m)])),                            # declared property, open record
+                ("open", "recc", ("obj", [("region", m)])),                           # declared property, closed record
+                ("open", "recc", ("obj", [("region", ("str", "r")), ("extra", m)])),  # undeclared key of a closed record
+                ("open", "recr", ("obj", [("other", m)])),                            # next to a missing required key
+                ("open", "recr", ("obj", [("region", m), ("other", m)])),
+                ("open", "rec", m),                                                   # the inputs themselves
+                ("open", "rec", ("obj", [("region", ("str", "r")), ("deep", ("obj", [("k", m)]))])),
+                ("open", "any", ("obj", [("region", m)])),
+            ]
+            for ci, e in enumerate(consumers):
+                for mi, (beh, chk) in enumerate((("const", True), ("fail", True), ("fail", False))):
+                    nth += 1
+                    if not thorough and mi > 0 and nth % 5:
+                        continue
+                    vals2 = [("o", ("open", "ps", ("obj", [("k", ("str", "v"))]))), ("x", e), ("after", ("str", "still evaluated"))]
+                    c = G.case_from_graph({"root": {"imports": [], "values": vals2}}, "root")
+                    c["provs"] = dict(recs, ps={"in": "always", "out": o, "beh": beh, "const": G.xspec({"val": "s"})})
+                    c["sites"] = []
+                    cases.append(dict(c, kind="ev", check=chk, show=True))
     # (3) raw stream
     for s in SHAPES:
         cases.append({"kind": "raw", "text": s.encode("latin-1").hex()})
